@@ -38,5 +38,5 @@ Record checker_cfg := {
   lit_in : bool;                                (* `return value in type_args` *)
   ty_index : nat;                               (* _instancecheck_type: type_[ty_index] *)
   str_walks_mro : bool;                         (* string annotations: any(c.__name__ == type_ for c in type(value).__mro__) *)
-  none_by_eq : bool;                            (* `if type_ is None: return value == type_` *)
+  none_by_eq : bool;                            (* `if type_ is None: return value is None` (the annotation None accepts exactly None) *)
 }.
